@@ -307,11 +307,11 @@ theorem OSGood.noLinkUpto {bk kk : Key} {m : MFS} (hg : OSGood bk kk m) (s : Sid
 
 /-! ### the parent text -/
 
-theorem joinSep_snoc : ∀ (D : List Name) (c : Name), D ≠ [] → joinSep (D ++ [c]) = joinSep D ++ '/' :: c
+theorem osjoinSep_snoc : ∀ (D : List Name) (c : Name), D ≠ [] → joinSep (D ++ [c]) = joinSep D ++ '/' :: c
   | [], _, h => absurd rfl h
   | [a], c, _ => by simp [joinSep]
   | a :: b :: r, c, _ => by
-    have ih := joinSep_snoc (b :: r) c (by simp)
+    have ih := osjoinSep_snoc (b :: r) c (by simp)
     rw [List.cons_append, joinSep_cons_of_ne_nil a (by simp), ih, joinSep_cons_cons]
     simp
 
@@ -328,7 +328,7 @@ theorem kp_parent {K : Key} (hne : K ≠ []) : kp K = parentText K ++ K.getLast 
   · simp only [hd, if_false]
     conv => lhs; rw [← hsplit]
     unfold BFS.kp
-    rw [joinSep_snoc _ _ hd]
+    rw [osjoinSep_snoc _ _ hd]
     simp
 
 theorem parentText_text {K : Key} : TextOf (parentText K) K.dropLast := by
@@ -342,13 +342,6 @@ theorem parentText_text {K : Key} : TextOf (parentText K) K.dropLast := by
 theorem parentText_length (K : Key) : (parentText K).length > 0 := by
   unfold parentText
   split <;> simp
-
-theorem uptoLastSep_sepfree : ∀ (n : Name), '/' ∉ n → uptoLastSep n = []
-  | [], _ => rfl
-  | c :: n, h => by
-    have hc : c ≠ '/' := by intro e; apply h; simp [e]
-    have hn : '/' ∉ n := by intro e; apply h; simp [e]
-    simp [uptoLastSep, uptoLastSep_sepfree n hn, hc]
 
 theorem uptoLastSep_append_sep : ∀ (a : Path) (n : Name), '/' ∉ n → uptoLastSep (a ++ '/' :: n) = a ++ ['/']
   | [], n, h => by simp [uptoLastSep, uptoLastSep_sepfree n h]
@@ -375,7 +368,7 @@ theorem stripTrailingSeps_snoc_sep (Y : Path) {ch : Char} (h : ch ≠ '/') :
   unfold stripTrailingSeps
   simp [List.dropWhile, h]
 
-theorem kp_snoc {K : Key} (hK : PKey K) (hne : K ≠ []) : ∃ Y ch, kp K = Y ++ [ch] ∧ ch ≠ '/' := by
+theorem oskp_snoc {K : Key} (hK : PKey K) (hne : K ≠ []) : ∃ Y ch, kp K = Y ++ [ch] ∧ ch ≠ '/' := by
   have hl := hK.getLast hne
   have hlne : K.getLast hne ≠ [] := hl.1
   refine ⟨parentText K ++ (K.getLast hne).dropLast, (K.getLast hne).getLast hlne, ?_, ?_⟩
@@ -388,7 +381,7 @@ theorem kp_snoc {K : Key} (hK : PKey K) (hne : K ≠ []) : ∃ Y ch, kp K = Y ++
 
 theorem text_strip {t : Path} {K : Key} (hK : PKey K) (hne : K ≠ []) (h : TextOf t K) :
     stripTrailingSeps t = kp K := by
-  obtain ⟨Y, ch, hY, hch⟩ := kp_snoc hK hne
+  obtain ⟨Y, ch, hY, hch⟩ := oskp_snoc hK hne
   rcases h with rfl | ⟨_, rfl⟩
   · rw [hY]; exact stripTrailingSeps_snoc Y hch
   · rw [hY]; exact stripTrailingSeps_snoc_sep Y hch
